@@ -211,7 +211,34 @@ func (ev *Eval) binary(e *ast.BinaryExpr) TV {
 		}
 		return TV{smt.Or(l, ev.guarded(smt.Not(l), e.Y)), types.Typ[types.Bool]}
 	}
-	a, b := coerce(ev.Eval(e.X), ev.Eval(e.Y))
+	a, b := ev.Eval(e.X), ev.Eval(e.Y)
+	if e.Op == token.SHL || e.Op == token.SHR {
+		// a constant shift amount is never truncated to the operand width
+		if cb, ok := untyped(b); ok {
+			if xt, ok := a.V.(*smt.Term); ok && xt.S.K == smt.KBV {
+				if cb.Sign() < 0 {
+					fail("negative shift amount")
+				}
+				w := xt.S.W
+				amt := smt.BVU(uint64(w), w)
+				if cb.Cmp(big.NewInt(int64(w))) < 0 {
+					amt = smt.BVC(cb, w)
+				}
+				if w < 8 && cb.Cmp(big.NewInt(int64(w))) >= 0 {
+					amt = smt.BVC(big.NewInt(int64(w)), w) // saturate
+				}
+				switch {
+				case e.Op == token.SHL:
+					return TV{smt.BVShl(xt, amt), a.T}
+				case isSigned(a.T):
+					return TV{smt.BVAshr(xt, amt), a.T}
+				default:
+					return TV{smt.BVLshr(xt, amt), a.T}
+				}
+			}
+		}
+	}
+	a, b = coerce(a, b)
 	if ca, ok := untyped(a); ok {
 		cb, ok := untyped(b)
 		if !ok {
